@@ -22,6 +22,7 @@ def job_ops(job, plan):
     ops = [cr.create_line(job["cfg"]), "limit %d" % job["N"]]
     if rng.chance(.35):     # end-of-input signalled by in == NULL together with a non-zero (stale) ilen
         ops.append("stale %d" % rng.choice([1, 37, 300, 100000]))
+    ops.append("eoistyle %d" % rng.below(4))   # how end-of-input is said and how the drain calls look (harness/cr/trace.c after_end)
     style = rng.below(4)
     cap = [10 ** 9, 60, 3000, 10 ** 9][style]
     ncalls = rng.choice([3, 10, 40, 150])
@@ -55,8 +56,10 @@ def oracle(job, tr):
             t = l.split()
             has_in = t[2] == "1"
             olen = int(t[6])
-            if not has_in:
+            if not has_in or (t[3] == "1" and t[5] == "0"):      # in == NULL, or ilen = ~0 with an empty block
                 flushed = True
+        elif l.startswith("> cr.eoi"):                           # end-of-input by a call without buffers
+            flushed = True; olen = 0
         elif l.startswith("< R "):
             r = cr.parse_kv(l)
             if "id" not in r:
